@@ -65,6 +65,19 @@ class Roles(object):
                         e["value"] == ("const", True) and \
                         ("WebSocketServer." + h) in e["stack"] + (e["func"],):
                     return e["attr"]
+        # no attribute of the connection is set true where the listener is
+        # registered: "is this connection subscribed?" is kept elsewhere (a state
+        # helper object), which the listener rules do not follow
+        cls = self.model.repo.classes.get("WebSocketServer")
+        init = cls[1]["methods"].get("__init__") if cls else None
+        import ast as _ast
+        has_default = init is not None and any(
+            isinstance(n, _ast.Attribute) and n.attr == "_listening" and
+            isinstance(n.ctx, _ast.Store) for n in _ast.walk(init.node))
+        if not has_default:
+            from .repo import AnalysisError
+            raise AnalysisError("role: no connection attribute records that the connection "
+                                "is subscribed (set true where the listener is registered)")
         return "_listening"
 
     def _sweeps(self):
